@@ -16,6 +16,7 @@ import (
 	"fmt"
 	"image"
 	"io/ioutil"
+	"math"
 	"net/http"
 	"net/url"
 	"os"
@@ -2269,9 +2270,20 @@ func (d *Data) newLabel(v dvid.VersionID) (uint64, error) {
 func (d *Data) newLabels(v dvid.VersionID, numLabels uint64) (begin, end uint64, err error) {
 	if numLabels <= 0 {
 		err = fmt.Errorf("cannot request %d new labels, must be 1 or more", numLabels)
+		return
 	}
 	d.mlMu.Lock()
 	defer d.mlMu.Unlock()
+
+	// The counter must never wrap around: labels handed out earlier would be issued again.
+	current := d.MaxRepoLabel
+	if d.NextLabel != 0 {
+		current = d.NextLabel
+	}
+	if numLabels > math.MaxUint64-current {
+		err = fmt.Errorf("cannot request %d new labels after label %d: exceeds the range of 64-bit labels", numLabels, current)
+		return
+	}
 
 	// Increment and store.
 	if d.NextLabel != 0 {
